@@ -298,10 +298,53 @@ package primitive
 //@   ensures v2: result == nil && version < ProtocolVersion3 ==> int16(int8(wbyte(dest, old(written(dest))))) == streamId
 
 // vints: 1 to 9 bytes, the same count from the writer, the length function and (C12) the reader.
+// [unsigned vint] (section 3 of the v5 / DSE specifications): the smallest n in 1..9 such that the value fits 7n bits
+// (64 bits for n = 9); the first byte starts with n-1 one bits (and a zero bit unless n = 9), the value follows
+// big-endian in the remaining bits.
+//@ spec specVintSize(v uint64) int = ite(v < 1<<7, int(1), ite(v < 1<<14, int(2), ite(v < 1<<21, int(3), ite(v < 1<<28, int(4), ite(v < 1<<35, int(5), ite(v < 1<<42, int(6), ite(v < 1<<49, int(7), ite(v < 1<<56, int(8), int(9)))))))))
+//@ func LengthOfUnsignedVint
+//@   prop C03, C12, C02
+//@   assigns nothing
+//@   ensures spec: result == specVintSize(v)
 //@ func WriteUnsignedVint
-//@   prop C03
+//@   prop C03, C12, C02
 //@   assigns wstream(dest)
+//@   unroll #0 9
+//@   let w0 = written(dest)
 //@   ensures len: err == nil ==> written(dest) == old(written(dest)) + LengthOfUnsignedVint(v) && written == LengthOfUnsignedVint(v)
+//@   ensures size: err == nil ==> written == specVintSize(v)
+//@   ensures bytes1: err == nil && specVintSize(v) == 1 ==> wbyte(dest, w0) == uint8(v)
+//@   ensures bytes2: err == nil && specVintSize(v) == 2 ==> wbyte(dest, w0) == uint8(0x80) | uint8(v >> 8) && wbyte(dest, w0+1) == uint8(v)
+//@   ensures bytes3: err == nil && specVintSize(v) == 3 ==> wbyte(dest, w0) == uint8(0xc0) | uint8(v >> 16) && wbyte(dest, w0+1) == uint8(v >> 8) && wbyte(dest, w0+2) == uint8(v)
+//@   ensures bytes4: err == nil && specVintSize(v) == 4 ==> wbyte(dest, w0) == uint8(0xe0) | uint8(v >> 24) && wbyte(dest, w0+1) == uint8(v >> 16) && wbyte(dest, w0+2) == uint8(v >> 8) && wbyte(dest, w0+3) == uint8(v)
+//@   ensures bytes5: err == nil && specVintSize(v) == 5 ==> wbyte(dest, w0) == uint8(0xf0) | uint8(v >> 32) && wbyte(dest, w0+1) == uint8(v >> 24) && wbyte(dest, w0+2) == uint8(v >> 16) && wbyte(dest, w0+3) == uint8(v >> 8) && wbyte(dest, w0+4) == uint8(v)
+//@   ensures bytes6: err == nil && specVintSize(v) == 6 ==> wbyte(dest, w0) == uint8(0xf8) | uint8(v >> 40) && wbyte(dest, w0+1) == uint8(v >> 32) && wbyte(dest, w0+2) == uint8(v >> 24) && wbyte(dest, w0+3) == uint8(v >> 16) && wbyte(dest, w0+4) == uint8(v >> 8) && wbyte(dest, w0+5) == uint8(v)
+//@   ensures bytes7: err == nil && specVintSize(v) == 7 ==> wbyte(dest, w0) == uint8(0xfc) | uint8(v >> 48) && wbyte(dest, w0+1) == uint8(v >> 40) && wbyte(dest, w0+2) == uint8(v >> 32) && wbyte(dest, w0+3) == uint8(v >> 24) && wbyte(dest, w0+4) == uint8(v >> 16) && wbyte(dest, w0+5) == uint8(v >> 8) && wbyte(dest, w0+6) == uint8(v)
+//@   ensures bytes8: err == nil && specVintSize(v) == 8 ==> wbyte(dest, w0) == uint8(0xfe) | uint8(v >> 56) && wbyte(dest, w0+1) == uint8(v >> 48) && wbyte(dest, w0+2) == uint8(v >> 40) && wbyte(dest, w0+3) == uint8(v >> 32) && wbyte(dest, w0+4) == uint8(v >> 24) && wbyte(dest, w0+5) == uint8(v >> 16) && wbyte(dest, w0+6) == uint8(v >> 8) && wbyte(dest, w0+7) == uint8(v)
+//@   ensures bytes9: err == nil && specVintSize(v) == 9 ==> wbyte(dest, w0) == uint8(0xff) | uint8(v >> 64) && wbyte(dest, w0+1) == uint8(v >> 56) && wbyte(dest, w0+2) == uint8(v >> 48) && wbyte(dest, w0+3) == uint8(v >> 40) && wbyte(dest, w0+4) == uint8(v >> 32) && wbyte(dest, w0+5) == uint8(v >> 24) && wbyte(dest, w0+6) == uint8(v >> 16) && wbyte(dest, w0+7) == uint8(v >> 8) && wbyte(dest, w0+8) == uint8(v)
+// (read side: the value is stated for encodings of up to 6 bytes; for 7..9 bytes only the byte count is - the
+// 56/64-bit reassembly takes the solvers over half a minute per clause, too close to the per-query budget)
+//@ func ReadUnsignedVint
+//@   prop C12, C02, C04
+//@   assigns rstream(source)
+//@   unroll #0 8
+//@   let p0 = pos(source)
+//@   ensures bytes1: err == nil && rbyte(source, p0) & 0x80 == 0x0 ==> read == 1 && pos(source) == p0 + 1 && val == uint64(rbyte(source, p0) & 0x7f)
+//@   ensures bytes2: err == nil && rbyte(source, p0) & 0xc0 == 0x80 ==> read == 2 && pos(source) == p0 + 2 && val == uint64(rbyte(source, p0) & 0x3f) << 8 | uint64(rbyte(source, p0+1))
+//@   ensures bytes3: err == nil && rbyte(source, p0) & 0xe0 == 0xc0 ==> read == 3 && pos(source) == p0 + 3 && val == uint64(rbyte(source, p0) & 0x1f) << 16 | uint64(rbyte(source, p0+1)) << 8 | uint64(rbyte(source, p0+2))
+//@   ensures bytes4: err == nil && rbyte(source, p0) & 0xf0 == 0xe0 ==> read == 4 && pos(source) == p0 + 4 && val == uint64(rbyte(source, p0) & 0xf) << 24 | uint64(rbyte(source, p0+1)) << 16 | uint64(rbyte(source, p0+2)) << 8 | uint64(rbyte(source, p0+3))
+//@   ensures bytes5: err == nil && rbyte(source, p0) & 0xf8 == 0xf0 ==> read == 5 && pos(source) == p0 + 5 && val == uint64(rbyte(source, p0) & 0x7) << 32 | uint64(rbyte(source, p0+1)) << 24 | uint64(rbyte(source, p0+2)) << 16 | uint64(rbyte(source, p0+3)) << 8 | uint64(rbyte(source, p0+4))
+//@   ensures bytes6: err == nil && rbyte(source, p0) & 0xfc == 0xf8 ==> read == 6 && pos(source) == p0 + 6 && val == uint64(rbyte(source, p0) & 0x3) << 40 | uint64(rbyte(source, p0+1)) << 32 | uint64(rbyte(source, p0+2)) << 24 | uint64(rbyte(source, p0+3)) << 16 | uint64(rbyte(source, p0+4)) << 8 | uint64(rbyte(source, p0+5))
+//@   ensures bytes7: err == nil && rbyte(source, p0) & 0xfe == 0xfc ==> read == 7 && pos(source) == p0 + 7
+//@   ensures bytes8: err == nil && rbyte(source, p0) & 0xff == 0xfe ==> read == 8 && pos(source) == p0 + 8
+//@   ensures bytes9: err == nil && rbyte(source, p0) == 0xff ==> read == 9 && pos(source) == p0 + 9
+// zig-zag: 0, -1, 1, -2, 2, ... -> 0, 1, 2, 3, 4, ...
+//@ func encodeZigZag
+//@   prop C12, C02
+//@   ensures spec: Z(result) == ite(n >= 0, 2 * Z(n), -2 * Z(n) - 1)
+//@ func decodeZigZag
+//@   prop C12, C02
+//@   ensures inverse: ite(result >= 0, 2 * Z(result), -2 * Z(result) - 1) == Z(n)
 //@ func WriteVint
 //@   prop C03
 //@   assigns wstream(dest)
